@@ -44,6 +44,19 @@ func c22Features() []c22Feature {
 			write(dir, "f0", "tracked file with a staged edit\n")
 			g.MustRun("add", "f0")
 		}},
+		{"staged-executable+symlink(loose)", func(g *fw.Git, dir string, ids []string) {
+			write(dir, "run.sh", "#!/bin/sh\necho staged executable\n")
+			os.Chmod(filepath.Join(dir, "run.sh"), 0o755)
+			os.Symlink("target of a staged symlink", filepath.Join(dir, "lnk"))
+			g.MustRun("add", "run.sh", "lnk")
+		}},
+		{"staged-executable+symlink(packed)", func(g *fw.Git, dir string, ids []string) {
+			write(dir, "run2.sh", "#!/bin/sh\necho staged executable, packed\n")
+			os.Chmod(filepath.Join(dir, "run2.sh"), 0o755)
+			os.Symlink("target of a staged symlink, packed", filepath.Join(dir, "lnk2"))
+			g.MustRun("add", "run2.sh", "lnk2")
+			g.MustRun("repack", "-a", "-d", "-q")
+		}},
 		{"staged-blob-packed", func(g *fw.Git, dir string, ids []string) {
 			write(dir, "d/staged2.txt", "staged and then packed by git repack\n")
 			g.MustRun("add", "d/staged2.txt")
@@ -127,7 +140,7 @@ func runC22(c *fw.Ctx) {
 	c.Bound("features", fn)
 	c.Bound("max_features_combined", maxF)
 	c.Bound("operations", on)
-	c.SetRule("repository states = 3 git-built histories (linear, branch+merge, two roots) x every subset of <= max_features_combined of 7 features (staged new blob, staged edit, staged blob already packed, detached HEAD on an unreferenced commit, annotated tags of commit and blob, everything packed + loose duplicate, unreachable loose object) x 7 GC operation sequences (Prune with/without age limit, RepackObjects ofs/ref, compositions); model = set of objects git reports reachable from all refs, HEAD and the index (rev-list --objects --all HEAD + ls-files -s) BEFORE the operation, with their bytes; after the operation every such object must be readable with identical type and bytes through a fresh go-git storage and through real git cat-file, and git fsck must find no missing object; distinct = (history, feature set, operation, object-set digest)")
+	c.SetRule("repository states = 3 git-built histories (linear, branch+merge, two roots) x every subset of <= max_features_combined of 9 features (staged new blob, staged edit, staged executable and symlink (loose / packed), staged blob already packed, detached HEAD on an unreferenced commit, annotated tags of commit and blob, everything packed + loose duplicate, unreachable loose object) x 7 GC operation sequences (Prune with/without age limit, RepackObjects ofs/ref, compositions); model = set of objects git reports reachable from all refs, HEAD and the index (rev-list --objects --all HEAD + ls-files -s) BEFORE the operation, with their bytes; after the operation every such object must be readable with identical type and bytes through a fresh go-git storage and through real git cat-file, and git fsck must find no missing object; distinct = (history, feature set, operation, object-set digest)")
 	c.Assume("git 2.39.5 defines reachability; reflog-only reachability is not part of the statement")
 	dags := []fw.DAG{{Parents: [][]int{{}, {0}}}, {Parents: [][]int{{}, {0}, {0}, {1, 2}}}, {Parents: [][]int{{}, {}, {0, 1}}}}
 	type state struct {
